@@ -1,6 +1,7 @@
 import LdkModel.Driver.Util
 import LdkModel.Model.TlvFrame
 import LdkModel.Generated.TlvSchemas
+import LdkModel.Generated.SerPrims
 /-! C12 model driver (frame level: version prefix + TLV stream rules over the generated (type, kind) lists).  ops:
     frame <Block> <hex>      `frameDecode` of the TLV stream part of an object (no length prefix): `ok` / `err <DecodeError>`
                              — the verdict predicted from the (type, kind) list alone (payloads opaque)
@@ -8,7 +9,12 @@ import LdkModel.Generated.TlvSchemas
     lptrunc <Block> <hex>    same, for a cut inside the payload of a known record: the error kind is decided inside the
                              opaque field decoder, so only `err` (any kind) / `ok <n>` is predicted
     ver <this> <hex>         `readVerPrefix this`: `ok <version> <rest byte count>` / `err …`
-    variant <Enum> <id>      `classifyVariant` over the generated variant ids: struct / tuple / skipped / rejected -/
+    variant <Enum> <id>      `classifyVariant` over the generated variant ids: struct / tuple / skipped / rejected
+    colllen <n>              `SerPrims.collLenEncode n` (TRANSLATED CollectionLength writer): hex
+    colllen_rd <hex>         `SerPrims.collLenDecode`: `ok <n> <rest byte count>` / `err …`
+    bigsize <n>              `SerPrims.bigSizeEncode n` (TRANSLATED BigSize writer): hex
+    bigsize_rd <hex>         `SerPrims.bigSizeDecode`: `ok <n> <rest byte count>` / `err …`
+    hzd_rd <len> <hex>       `SerPrims.hzdDecode len` (TRANSLATED HighZeroBytesDroppedBigSize reader, whole input = its reader) -/
 namespace Ldk.Driver
 open Ldk.Codec Ldk.TlvFrame Ldk.TlvFrame.Gen
 
@@ -50,6 +56,20 @@ def c12 : Drv where
       | some (_, upg, si, ti) =>
         ((), match classifyVariant upg si ti (nat! id) with
           | .struct => "struct" | .tuple => "tuple" | .skipped => "skipped" | .rejected => "rejected")
+    | ["colllen", n] => ((), hex (SerPrims.collLenEncode (nat! n)))
+    | ["colllen_rd", h] =>
+      match SerPrims.collLenDecode (unhex h) with
+      | .ok (n, rest) => ((), s!"ok {n} {rest.length}")
+      | .error e => ((), "err " ++ e.name)
+    | ["bigsize", n] => ((), hex (SerPrims.bigSizeEncode (nat! n)))
+    | ["bigsize_rd", h] =>
+      match SerPrims.bigSizeDecode (unhex h) with
+      | .ok (n, rest) => ((), s!"ok {n} {rest.length}")
+      | .error e => ((), "err " ++ e.name)
+    | ["hzd_rd", len, h] =>
+      match SerPrims.hzdDecode (nat! len) (unhex h) with
+      | .ok (n, rest) => ((), s!"ok {n} {rest.length}")
+      | .error e => ((), "err " ++ e.name)
     | _ => ((), "bad-op")
 
 end Ldk.Driver
